@@ -387,9 +387,13 @@ def startConnect (g : Gw) (f : ConnFields) : Gw :=
   (((g.newTx (.connect .awaitingAuth f) .connectType (some (g.now + Gen.connectTransactionTimeout))).2.setConnectTx
         g.nextTx).startConnectTx g.nextTx f)
 
+/-- `cancelSleepPinger`: the pinger of the sleep period that ends now (re-CONNECT, or a new DISCONNECT
+    with a duration) is stopped -/
+def cancelSleepPinger (g : Gw) : Gw := { g with pingers := [] }
+
 def handleConnect (g : Gw) (will clean : Bool) (dur : UInt16) (cid : Bytes) : Gw :=
   if g.st = .awake ∨ g.st = .asleep then
-    (({ g with st := .active }).snSend (.connack Gen.RC_ACCEPTED)).flushBuffer
+    (({ g.cancelSleepPinger with st := .active }).snSend (.connack Gen.RC_ACCEPTED)).flushBuffer
   else if dur = 0 then g.snSend (.connack Gen.RC_NOT_SUPPORTED)
   else
     ((({ g with keepAlive := dur, clientId := cid } : Gw).cancelOldConnect).startConnect
@@ -623,7 +627,7 @@ def clearBufferUnlessAsleep (g : Gw) : Gw := if g.st ≠ .asleep then g.clearBuf
 
 /-- DISCONNECT with a duration: the client goes to sleep; the reply is never queued -/
 def handleSleep (g : Gw) (d : UInt16) : Gw :=
-  ((((g.maybeSleepPinger d).clearBufferUnlessAsleep).snSendNow (.disconnect 0)).setSt .asleep)
+  ((((g.cancelSleepPinger.maybeSleepPinger d).clearBufferUnlessAsleep).snSendNow (.disconnect 0)).setSt .asleep)
 
 def handleDisconnect (g : Gw) (d : UInt16) : Gw :=
   if d = 0 then g.handlePlainDisconnect else g.handleSleep d
